@@ -82,15 +82,24 @@ func seededMatrix(seed int64, i int) align.SubstitutionMatrix {
 var (
 	matMu    sync.Mutex
 	matCache = map[string]align.SubstitutionMatrix{}
+	matFast  sync.Map
 )
 
 // matrixByName resolves "sym:m:x:g:o", "asym:k:o", "seed:S:i" and the shipped names.
 func matrixByName(name string) align.SubstitutionMatrix {
+	if m, ok := matFast.Load(name); ok {
+		return m.(align.SubstitutionMatrix)
+	}
 	matMu.Lock()
 	defer matMu.Unlock()
 	if m, ok := matCache[name]; ok {
 		return m
 	}
+	defer func() {
+		if m, ok := matCache[name]; ok {
+			matFast.Store(name, m)
+		}
+	}()
 	var m align.SubstitutionMatrix
 	p := strings.Split(name, ":")
 	f := func(i int) float64 { v, _ := strconv.ParseFloat(p[i], 64); return v }
